@@ -189,7 +189,8 @@ func runC19(c *Ctx) {
 					continue
 				}
 				info, err := k.Node.ProcessInfo(wk.pid)
-				if err != nil {
+				if err != nil || info.State == gen.ProcessStateZombee || info.State == gen.ProcessStateTerminated {
+					// gone, or killed while inside a callback (its goroutine has not ended yet): dead for the pool
 					parts = append(parts, fmt.Sprintf("%d:0:0", id))
 				} else {
 					parts = append(parts, fmt.Sprintf("%d:1:%d", id, info.MailboxQueues.Main))
@@ -279,6 +280,20 @@ func runC19(c *Ctx) {
 					lostQueued += int(info.MailboxQueues.Main)
 				}
 				k.Node.Kill(wk.pid)
+				if c.Rng.Intn(3) == 0 {
+					// the worker stays blocked inside its callback: killed, its goroutine not ended (a zombie until the
+					// end of the sequence). For the pool it is as dead as one that is gone.
+					waitUntil(time.Second, func() bool {
+						info, err := k.Node.ProcessInfo(wk.pid)
+						return err != nil || info.State == gen.ProcessStateZombee
+					})
+					r.Count("kill.worker-stays-in-callback")
+					alive[id] = false
+					lines = append(lines, fmt.Sprintf("die %d", id))
+					wants = append(wants, observe())
+					opstr = append(opstr, fmt.Sprintf("zombie%d", id))
+					continue
+				}
 				// a worker blocked on its permit cannot see the kill: give it permits so that its goroutine ends
 				for i := 0; i < 8; i++ {
 					select {
